@@ -1,26 +1,29 @@
 import CrabProofs.Props.C03FlatBool
 
 /-!
-# C03 for `flat_boolean_numerical_domain`: the meet-like operations, regressions, non-vacuity
+# C03 for `flat_boolean_numerical_domain`: the old meet, regressions, non-vacuity, `+=` on Booleans
 
 All on the concrete lawful instance `FBInst.N0` (`Lemmas/FunctorFlatBoolInst.lean`): constraints
 `x ≥ k`, `x < k`, `true`, `false`; a base value is the list of the constraints asserted so far.
 Variables are numbers: `0..9` numerical, `10..` Boolean.
 
-## genuine defect: `operator&`, `operator&=`, `operator&&` revive stale constraints
+## defect of the pinned tree, FIXED by repo commit ef2ddd6: `&`, `&=`, `&&` revived stale constraints
 
 `m_unchanged_vars & other.m_unchanged_vars` is the meet of `dual_set_domain`, i.e. the UNION of the
 two sets, and the maps are united too.  A constraint recorded by one operand whose variable was
-changed afterwards (so: not marked there) becomes usable again when the OTHER operand marks that
-variable.  Real code (`flat_boolean_numerical_domain<interval_domain>`, replay with
+changed afterwards (so: not marked there) became usable again when the OTHER operand marked that
+variable.  Model of that behaviour: `FBN.meetOld`, `FBN.meetEqOld`, `FBN.narrowOld` (NOT the current
+code).  On the tree before ef2ddd6 (`flat_boolean_numerical_domain<interval_domain>`, replay with
 `python3 tools/hrun.py h_dom2_14 --source h_dom2 --define -DVDOM=14 -- --ops file`):
 
     (dom2.hist flat-bool-intervals (params) (ops (bcst 0 b0 (lt (lin 0 (-1 v0)))) (arith 0 sub v0 v0 5)
        (bcst 1 b1 (le (lin -100 (1 v0)))) (meet 2 0 1) (bassume 2 b0 0)))
 
-answers `v0 ∈ [1, +oo]` for slot 2, although the state `v0 = -3, b0 = b1 = true` is produced by
+answered `v0 ∈ [1, +oo]` for slot 2, although the state `v0 = -3, b0 = b1 = true` is produced by
 both operand histories (from `v0 = 2`: `b0 := (v0 > 0); v0 := v0 - 5`, and from `v0 = -3`:
-`b1 := (v0 <= 100)`) and passes `assume(b0)`.  Same with `narrow` and `copy; meeteq`.
+`b1 := (v0 <= 100)`) and passes `assume(b0)`.  Same with `narrow` and `copy; meeteq`.  The fix
+(intersection of the marks: `m_unchanged_vars | other.m_unchanged_vars`) is what `FBN.meet` models
+now; it is proved sound in `C03.flatbool_meet_sound` and the history below is a regression.
 -/
 set_option linter.unusedSimpArgs false
 open Crab Crab.Dom Crab.Dom.Fct Crab.Dom.Fct.FBInst
@@ -34,12 +37,9 @@ def rSub5 (s s' : CSt Nat) : Prop := s' = s.setN 0 (s.num 0 - 5)
 def A : St0 := FBN.numDef .apply (fforget 0) 0 (FBN.assignBoolCst id 10 (.ge 0 1) T)
 /-- `b11 := (v0 < 101)` -/
 def B : St0 := FBN.assignBoolCst id 11 (.lt 0 101) T
-def p0 : Pool St0 := fun _ => T
-def c0 : CPool (CSt Nat) := fun _ _ => True
 def sInit : CSt Nat := ⟨fun v => if v = 0 then 2 else 0, fun _ => true⟩
 /-- `v0 = -3`, every Boolean true -/
 def s0 : CSt Nat := (sInit.setB 10 true).setN 0 (-3)
-
 end C03FB
 open C03FB
 
@@ -61,74 +61,49 @@ theorem C03.flatbool_cex_in_B : B.γ s0 := by
   have e : s0.setB 11 true = s0 := FEnv.setB_self s0 11
   rw [e] at this; exact this
 
-/-- ... and of none of `A & B`, `A &= B`, `A && B` -/
-theorem C03.flatbool_cex_not_in_meet : ¬ (FBN.meet A B).γ s0 ∧ ¬ (FBN.meetEq A B).γ s0 ∧ ¬ (FBN.narrow A B).γ s0 := by
-  have key : ∀ (m : St0), (m.lin.look 10).mem (C0.ge 0 1) = true → FBN.unchanged (K := K0) m.unch (C0.ge 0 1) = true →
-      ¬ m.γ s0 := by
+/-- ... and of none of the OLD `A & B`, `A &= B`, `A && B` (pinned tree, before ef2ddd6) -/
+theorem C03.flatbool_cex_not_in_meetOld :
+    ¬ (FBN.meetOld A B).γ s0 ∧ ¬ (FBN.meetEqOld A B).γ s0 ∧ ¬ (FBN.narrowOld A B).γ s0 := by
+  have key : ∀ (m : St0), (m.lin.look 10).mem (C0.ge 0 1) = true →
+      FBN.unchanged (K := K0) m.unch (C0.ge 0 1) = true → ¬ m.γ s0 := by
     intro m h1 h2 hg
     have := (hg.2.2.2.2.1 10 (C0.ge 0 1) h1 h2).1 rfl
     simp [K0, C0.holds, s0, CSt.setN] at this
   exact ⟨key _ (by rfl) (by rfl), key _ (by rfl) (by rfl), key _ (by rfl) (by rfl)⟩
 
-/-- full statement: `&`, `&=`, `&&` keep the states common to both operands -/
-def C03.flatbool_meet_sound_Statement : Prop :=
-  ∀ (V : Type) [DecidableEq V] (K : CSig V) (N : BNDom V K) (a b : FBN N) (s : CSt V),
-    a.γ s → b.γ s → (FBN.meet a b).γ s ∧ (FBN.meetEq a b).γ s ∧ (FBN.narrow a b).γ s
-
-/-- ... they do when both operands mark the same variables unchanged -/
-theorem C03.flatbool_meet_sound_partial {V : Type} [DecidableEq V] {K : CSig V} {N : BNDom V K}
-    (a b : FBN N) (s : CSt V) (hs : FBN.sameUnch a b = true) (ha : a.γ s) (hb : b.γ s) :
-    (FBN.meet a b).γ s ∧ (FBN.meetEq a b).γ s ∧ (FBN.narrow a b).γ s :=
-  FBN.meet_sound_of_sameUnch hs ha hb
-
-/-- ... and not in general: `(b10 := (v0 ≥ 1); v0 := v0 - 5) & (b11 := (v0 < 101))` claims
-    `b10 ⇔ v0 ≥ 1` with `v0` unchanged; the state `v0 = -3, b10 = true` of both operands is lost -/
-theorem C03.flatbool_meet_sound_counterexample : ¬ C03.flatbool_meet_sound_Statement := by
+/-- **pinned-tree behaviour, fixed by repo commit ef2ddd6** (replay line in the header): the old
+    `&`, `&=`, `&&` (union of the unchanged-variable sets) lose states common to both operands:
+    `(b10 := (v0 ≥ 1); v0 := v0 - 5) & (b11 := (v0 < 101))` claimed `b10 ⇔ v0 ≥ 1` with `v0`
+    unchanged and lost `v0 = -3, b10 = true` -/
+theorem C03.flatbool_meetOld_counterexample :
+    ¬ (∀ (V : Type) [DecidableEq V] (K : CSig V) (N : BNDom V K) (a b : FBN N) (s : CSt V),
+        a.γ s → b.γ s → (FBN.meetOld a b).γ s ∧ (FBN.meetEqOld a b).γ s ∧ (FBN.narrowOld a b).γ s) := by
   intro h
-  exact C03.flatbool_cex_not_in_meet.1 (h Nat K0 N0 C03FB.A C03FB.B C03FB.s0 C03.flatbool_cex_in_A C03.flatbool_cex_in_B).1
+  exact C03.flatbool_cex_not_in_meetOld.1
+    (h Nat K0 N0 A B s0 C03.flatbool_cex_in_A C03.flatbool_cex_in_B).1
 
-/-- the hypothesis of the partial theorem is satisfiable by non-trivial values, and fails on the
-    counterexample -/
-example : FBN.sameUnch C03FB.B C03FB.B = true ∧ FBN.sameUnch C03FB.A C03FB.B = false := by
-  constructor <;> rfl
-
-/-- what the lost state costs: after `assume(b10)` on the meet the BASE holds `v0 ≥ 1` -/
-theorem C03.flatbool_meet_then_assume_observable :
-    (FBN.assumeBool id 10 false (FBN.meet C03FB.A C03FB.B)).prod.snd = [C0.ge 0 1] ∧
-    ¬ C0.holds (C0.ge 0 1) C03FB.s0.num := by
+/-- what the lost state cost: after `assume(b10)` on the OLD meet the base held `v0 ≥ 1` -/
+theorem C03.flatbool_meetOld_then_assume_observable :
+    (FBN.assumeBool id 10 false (FBN.meetOld A B)).prod.snd = [C0.ge 0 1] ∧
+    ¬ C0.holds (C0.ge 0 1) s0.num := by
   constructor
   · rfl
-  · simp [C0.holds, C03FB.s0, CSt.setN]
+  · simp [C0.holds, s0, CSt.setN]
 
-/-- the history-level statement fails with it -/
-theorem C03.flatbool_history_sound_counterexample : ¬ C03.flatbool_history_sound_Statement := by
-  intro h
-  let ops : List (FBN.Op N0) :=
-    [.bcst 0 id 10 (C0.ge 0 1), .numDef 0 .apply (fforget 0) 0 C03FB.rSub5,
-     .bcst 1 id 11 (C0.lt 0 101), .meet 2 0 1]
-  have hops : ∀ op ∈ ops, op.BaseSound C03FB.isB := by
-    intro op hop
-    simp only [ops, List.mem_cons, List.not_mem_nil, or_false] at hop
-    rcases hop with rfl | rfl | rfl | rfl
-    · exact id_sound_bool 10 _
-    · exact ⟨fforget_sound 0 _ C03.flatbool_cex_defines, C03.flatbool_cex_defines⟩
-    · exact id_sound_bool 11 _
-    · trivial
-  have := h Nat K0 N0 C03FB.isB ops hops C03FB.p0 C03FB.c0 (fun _ s _ => FBN.γ_top s)
-    2 C03FB.s0 (by
-      simp only [ops, collHist, FBN.toHist, List.map_cons, List.map_nil, List.foldl_cons, List.foldl_nil,
-        FBN.Op.toStep, Step.coll, CPool.set, C03FB.c0]
-      simp only [if_true]
-      refine ⟨?_, ?_⟩
-      · -- slot 0
-        simp only [show (0 : Nat) ≠ 1 by decide, show (0 : Nat) ≠ 2 by decide, if_false, if_true]
-        exact ⟨C03FB.sInit.setB 10 true,
-          ⟨C03FB.sInit, trivial, true, by simp [K0, C0.holds, C03FB.sInit], rfl⟩, rfl⟩
-      · -- slot 1
-        simp only [show (1 : Nat) ≠ 0 by decide, if_false, if_true]
-        exact ⟨C03FB.s0, trivial, true, by simp [K0, C0.holds, C03FB.s0, CSt.setN],
-          (FEnv.setB_self C03FB.s0 11).symm⟩)
-  exact C03.flatbool_cex_not_in_meet.1 this
+/-- regression for ef2ddd6 on the CURRENT model: the meet keeps the state, marks nothing unchanged
+    (`v0` is marked by one operand only), and `assume(b10)` teaches the base nothing -/
+theorem C03.flatbool_regress_ef2ddd6 :
+    (FBN.meet A B).γ s0 ∧ (FBN.meet A B).unch = .fin [] ∧
+    (FBN.meet A B).lin = .env [(10, [C0.ge 0 1]), (11, [C0.lt 0 101])] ∧
+    (FBN.assumeBool id 10 false (FBN.meet A B)).prod.snd = [] ∧
+    (FBN.assumeBool id 10 false (FBN.narrow A B)).prod.snd = [] ∧
+    (FBN.assumeBool id 10 false (FBN.meetEq A B)).prod.snd = [] :=
+  ⟨FBN.meet_sound C03.flatbool_cex_in_A C03.flatbool_cex_in_B, rfl, rfl, rfl, rfl, rfl⟩
+
+/-- the meet still transmits what BOTH operands can use: `(b10 := (v0 ≥ 1)) & (b11 := (v0 < 101))`
+    followed by `assume(b10)` reaches `v0 ≥ 1` -/
+example : (FBN.assumeBool id 10 false (FBN.meet (FBN.assignBoolCst (N := N0) id 10 (C0.ge 0 1) T) B)).prod.snd =
+    [C0.ge 0 1] := rfl
 
 /-! ## regressions: the histories of the old defects on the CURRENT model
 
@@ -214,41 +189,70 @@ theorem C03.flatbool_regress_26c913b :
 example : (FBN.selectBool id id 10 11 10 12 (bcst 12 .fls (bcst 10 (.ge 0 1) T))).prod.fst =
     .env [(12, false)] := rfl
 
-/-! ## the suggested fix of `&`, `&=`, `&&` is sound
 
-Take the dual JOIN (intersection) of the two unchanged-variable sets instead of the dual meet:
-`m_unchanged_vars | other.m_unchanged_vars`.  Every constraint of the united maps that is usable in
-the result is then usable in the operand it comes from. -/
+/-! ## `operator+=` on an equality over one Boolean: the sign of the constant
 
-/-- `operator&` with the suggested fix (`meetLike` = `Prod2.meet`, `Prod2.meetEq` or `Prod2.narrow`) -/
-def C03FB.meetFixed {V : Type} [DecidableEq V] {K : CSig V} {N : BNDom V K}
-    (meetLike : Prod2 (FB V) N.toLDom → Prod2 (FB V) N.toLDom → Prod2 (FB V) N.toLDom) (a b : FBN N) : FBN N :=
-  ⟨meetLike a.prod b.prod, a.lin.meet b.lin, a.bools.meet b.bools, a.unch.join b.unch⟩
+The loop of `operator+=` looks at a normalised equality `1*b + k == 0` over a single Boolean `b`
+through `exp.constant()` (= `k`) and calls `assume_bool(b, true)` when `k == 0`,
+`assume_bool(b, false)` when `k == 1`, nothing otherwise; in all three cases the constraint is NOT
+passed on to the numerical domain.  So `b == 1` (which is `b - 1 == 0`, `k = -1`) is ignored and
+`b + 1 == 0` (`b = -1`) makes `b` true.  Observed on the real code (`flat-bool-intervals`):
+`(assume 0 (eq (lin -1 (1 b0))))` leaves `b0` unknown, `(assume 0 (eq (lin 1 (1 b0))))` gives
+`b0 = 1`.  With Booleans read as 0/1 this is a loss of PRECISION only:
+* `k = 0`: `b = 0`, the literal `not b` is right;
+* `k = 1`: no Boolean satisfies `b + 1 == 0`, the statement has no execution, any answer is sound
+  (the precise answer would be bottom);
+* other `k` (incl. `k = -1`, the intended `b == 1`): the constraint is dropped, which is the
+  identity on states: sound, nothing is learnt. -/
 
-theorem C03.flatbool_meet_fix_sound {V : Type} [DecidableEq V] {K : CSig V} {N : BNDom V K}
-    (meetLike : Prod2 (FB V) N.toLDom → Prod2 (FB V) N.toLDom → Prod2 (FB V) N.toLDom)
-    (hm : ∀ p q s, p.γ s → q.γ s → (meetLike p q).γ s) (a b : FBN N) (s : CSt V) (ha : a.γ s) (hb : b.γ s) :
-    (C03FB.meetFixed meetLike a b).γ s := by
-  obtain ⟨hp, hlb, hbb, hub, hL, hB⟩ := ha
-  obtain ⟨hp', hlb', hbb', hub', hL', hB'⟩ := hb
-  refine ⟨hm _ _ _ hp hp', by simp [C03FB.meetFixed, SEnv.isBot_meet, hlb, hlb'],
-    by simp [C03FB.meetFixed, SEnv.isBot_meet, hbb, hbb'],
-    by simp [C03FB.meetFixed, DSet.isBot_join, hub], ?_, ?_⟩
-  · intro k c hc hu
-    simp only [C03FB.meetFixed, SEnv.look_meet, DSet.mem_meet] at hc
-    simp only [C03FB.meetFixed] at hu
-    rw [FBN.unchanged_iff] at hu
-    rcases hc with hc | hc
-    · exact hL k c hc ((FBN.unchanged_iff _ _).2 (fun v hv => ((DSet.mem_join _ _ v).1 (hu v hv)).1))
-    · exact hL' k c hc ((FBN.unchanged_iff _ _).2 (fun v hv => ((DSet.mem_join _ _ v).1 (hu v hv)).2))
-  · intro k k' hk
-    simp only [C03FB.meetFixed, SEnv.look_meet, DSet.mem_meet] at hk
-    rcases hk with hk | hk
-    · exact hB k k' hk
-    · exact hB' k k' hk
+namespace C03FB
+/-- the integer reading of a Boolean -/
+def b2i (b : Bool) : Int := if b then 1 else 0
+/-- `is_negated` of the `assume_bool(b, ·)` call made for `b + k == 0` (`none`: no call) -/
+def plusEqLit (k : Int) : Option Bool := if k = 0 then some true else if k = 1 then some false else none
+/-- the literals handed to `m_product.first().assume_bool` -/
+def plusEqLits (x : Nat) (k : Int) : List (Nat × Bool) :=
+  match plusEqLit k with
+  | some neg => [(x, neg)]
+  | none => []
+/-- `assume(b_x + k == 0)` -/
+def rPlusEq (x : Nat) (k : Int) (s s' : CSt Nat) : Prop := s' = s ∧ b2i (s.bool x) + k = 0
+end C03FB
 
-/-- on the counterexample the fixed meet keeps the state and `assume(b10)` adds nothing -/
-example : (C03FB.meetFixed Prod2.meet A B).γ s0 ∧
-    (FBN.assumeBool id 10 false (C03FB.meetFixed Prod2.meet A B)).prod.snd = [] :=
-  ⟨C03.flatbool_meet_fix_sound Prod2.meet (fun _ _ _ hp hq => Prod2.meet_sound hp hq) A B s0
-    C03.flatbool_cex_in_A C03.flatbool_cex_in_B, rfl⟩
+/-- whenever the code extracts a literal from `b + k == 0`, every 0/1 value of `b` that satisfies
+    the equality satisfies the literal (for `k = 1` because there is none) -/
+theorem C03.flatbool_add_bool_equality_lit_sound (k : Int) (b neg : Bool)
+    (h : plusEqLit k = some neg) (hc : b2i b + k = 0) : b = !neg := by
+  unfold plusEqLit at h
+  split at h
+  · rename_i hk; cases h; subst hk
+    cases b <;> simp [b2i] at hc ⊢
+  · split at h
+    · rename_i hk; cases h; subst hk
+      cases b <;> simp [b2i] at hc
+    · cases h
+
+/-- the three outcomes: `b == 0` is used, `b == 1` (constant `-1`) is ignored — precision only —,
+    and `b + 1 == 0` asks for `b`, which costs nothing because no Boolean satisfies it -/
+theorem C03.flatbool_add_bool_equality_sign :
+    plusEqLit 0 = some true ∧ plusEqLit (-1) = none ∧ plusEqLit 1 = some false ∧
+    (∀ b, b2i b + 1 ≠ 0) ∧ (∀ b, b2i b + (-1) = 0 ↔ b = true) := by
+  refine ⟨rfl, rfl, rfl, ?_, ?_⟩
+  · intro b; cases b <;> simp [b2i]
+  · intro b; cases b <;> simp [b2i]
+
+/-- hence `operator+=` is sound on such an equality whatever `k` is (instance of
+    `C03.flatbool_add_constraints_sound` over the test base, the base being given nothing) -/
+theorem C03.flatbool_add_bool_equality_sound (x : Nat) (k : Int) (a : St0) (s s' : CSt Nat) (hg : a.γ s)
+    (hr : rPlusEq x k s s') : (FBN.addCsts false false (plusEqLits x k) id a).γ s' := by
+  apply FBN.addCsts_sound false false (r := rPlusEq x k) (id_sound_filter _ (fun _ _ h => h.1))
+    (fun _ _ h => h.1) _ hg hr
+  intro t t' ht l hl
+  unfold plusEqLits at hl
+  cases hlit : plusEqLit k with
+  | none => rw [hlit] at hl; cases hl
+  | some neg =>
+    rw [hlit] at hl
+    have : l = (x, neg) := by simpa using hl
+    subst this
+    exact C03.flatbool_add_bool_equality_lit_sound k _ neg hlit ht.2
